@@ -323,6 +323,9 @@ def oracle(lines, trace):
     ev = parse_trace(trace)
     order = sorted(clients, key=lambda s: clients[s]["tconn"])
     prev_end = -1
+    # a client that goes away before its connect completed leaves the server with a connection
+    # it never hears of again (the library sends no EOF then): nothing is demanded of later clients
+    tainted = False
     for idx, s in enumerate(order):
         c = clients[s]
         hr = 300 + (s - 20)
@@ -345,8 +348,22 @@ def oracle(lines, trace):
                 s, k, len(got), len(exp), got[k:k + 40], exp[k:k + 40])))
             continue
         # completeness: only for a client that had the server to itself and stayed long enough
-        alone = c["tconn"] > prev_end and (tstop is None or tstop > c.get("tclose", 0) or tstop < 0)
+        overlap = any(s2 != s and clients[s2]["tconn"] <= c.get("tclose", 1 << 62) + 200000000
+                      and clients[s2].get("tclose", 1 << 62) + 200000000 >= c["tconn"] for s2 in clients)
+        alone = not overlap and c["tconn"] > prev_end and (tstop is None or tstop > c.get("tclose", 0) or tstop < 0) and not tainted
+        if not conn or conn[0][1][1] != 0:
+            if not (alone and c.get("tclose", 0) - c["tconn"] >= 2500000000):
+                tainted = True
+        if c.get("tclose", 0) - c["tconn"] < 2500000000:
+            # it left while the server may have been writing to it: the simulated TCP has no reset, a writer
+            # whose peer is gone waits for acknowledgements for ever (see C06) and the server with it
+            tainted_next = True
+        else:
+            tainted_next = tainted
         patient = c.get("tclose", 0) - c["tconn"] >= 2500000000
+        if alone and patient and (not conn or conn[0][1][1] != 0) and (tstop is None or tstop > c.get("tclose", 0)):
+            fails.append(("c16/not-accepted", "client %d: its connect %s although the server had no other client and was not stopped" % (
+                s, "never completed" if not conn else "completed with %d" % conn[0][1][1])))
         if alone and patient and conn and conn[0][1][1] == 0:
             if got != exp:
                 fails.append(("c16/response-missing", "client %d: %d of %d response bytes arrived although the client waited" % (s, len(got), len(exp))))
@@ -355,6 +372,7 @@ def oracle(lines, trace):
             elif end in ("open", "stalled", "incomplete") and eof_at is not None and eof_at < c.get("tclose", 0):
                 fails.append(("c16/closed-early", "client %d: the server closed a connection it should keep open (%s)" % (s, end)))
         prev_end = max(prev_end, c.get("tclose", 1 << 62) + 200000000)
+        tainted = tainted_next
     if tstop is not None:
         probe = [(t, f) for (t, tag, f) in ev if tag == 1 and f[0] == 990]
         if probe and probe[0][1][1] != 3:
